@@ -6,6 +6,9 @@ import shutil
 import struct
 import subprocess
 import tempfile
+import zlib
+from concurrent.futures import ThreadPoolExecutor
+from vf import core
 from vf.core import Suite, coq_list, coq_bool, coq_N, coq_Z
 from vf.gen import pick_weighted
 
@@ -15,20 +18,37 @@ MODEL_FILES = ["IndexFile.v"]
 MODELLED = ("plumbing/format/index: Encoder.Encode (sort, entry layout, V2/3 padding, V4 prefix compression, footer / skip-hash) and "
             "Decoder.Decode (header, readEntry, padEntry incl. long names, V4 strip-length checks, extension loop, TREE / REUC / EOIE "
             "decoders, optional vs mandatory unknown extensions, checksum rules); utils/binary Read/WriteVariableWidthInt "
-            "(Model/IndexFile.v); not modelled: bufio buffering, EOIE extensions longer than offset+hash in files beyond bufio's 4096-byte buffer, sort instability on duplicate keys")
+            "(Model/IndexFile.v).  S = Spec/GitIndex.v: git 2.39 read-cache.c / cache-tree.c / resolve-undo.c / varint.c as git_decode "
+            "(normal, fsck and index.threads>1 modes: verify_hdr, create_from_disk, ondisk_ce_size, extended flags, V4 names, "
+            "load_index_extensions with TREE / REUC / EOIE / IEOT / link / UNTR / FSMN / sdir / unknown optional / unknown mandatory, "
+            "read_eoie_extension, check_ce_order) and git_encode (do_write_index: version promotion, ce_write_entry, write_one, "
+            "resolve_undo_write, EOIE contents, trailer); not modelled: bufio buffering, EOIE extensions longer than offset+hash in "
+            "files beyond bufio's 4096-byte buffer, sort instability on duplicate keys; in S: split / sparse index contents, the "
+            "threaded IEOT loader, UNTR / FSMN contents (opaque)")
 TRUSTED = [
     "C-impl: harness/cmd/c12 (index.NewDecoder/NewEncoder with the repository's hash.New) vs Model/IndexFile on every case; the checksum "
     "function of the model is instantiated per case with the SHA-1/SHA-256 of the prefixes the decoder can hash (computed by python hashlib)",
-    "C-git: git 2.39.5 `ls-files -z --stage --debug` and `--resolve-undo` with GIT_INDEX_FILE as the reference reader (both directions); "
-    "the python transcription of git's on-disk layout (props/C12.py build_index) is validated by git reading every synth-valid file",
+    "C-git: Spec/GitIndex.v (git_decode / git_encode / g_read_eoie, hash function = table of the python hashlib hashes of the strings git "
+    "hashes on that input) vs git 2.39.5 on every decode case and on every file go-git writes: `ls-files -z --stage --debug` (entries, "
+    "ce_flags), `--resolve-undo` (modes, names), `write-tree [--prefix]` (cache tree: nesting, names, object names; for git-written "
+    "files entry_count / subtree_nr / object names against `ls-tree -r -t` of the same index), `fsck` (checksum, check_ce_order), "
+    "`-c index.threads=2 ls-files` (EOIE validity and offset), and git_encode (git_decode b) = b byte for byte on the files git writes",
 ]
-ASSUMPTIONS = ["the checksum H is a function of the bytes (section variable of Model/IndexFile.v); hash.Size() is 20 or 32",
-               "TREE and EOIE contents have no git plumbing printer: they are tied model-vs-implementation only"]
+ASSUMPTIONS = ["the checksum H is a function of the bytes (section variable of Model/IndexFile.v and Spec/GitIndex.v) and returns hash.Size() "
+               "= 20 or 32 bytes (hypothesis of the theorems that need it)",
+               "S describes git with index.threads unset or 1 (the default) unless the threaded mode is named; UNTR and FSMN are opaque",
+               "index.skipHash: git 2.39.5 neither writes a null trailer nor accepts one under fsck (validated); the null_ok mode of S is "
+               "git >= 2.40's rule and is not exercised by the binary"]
 RULE = ("dec: index files written by git over generated command sequences (update-index --index-info/--cacheinfo/--force-remove/"
-        "--skip-worktree/--index-version/--force-untracked-cache, add, add -N, write-tree, EOIE/IEOT config, sha1+sha256), the same with a "
-        "null trailer, files built by a python transcription of the format (V2/3/4, long names 4093..5000, stages, extended flags, TREE/REUC/"
-        "EOIE/optional extensions) and 14 malformed variants; enc: in-memory indexes (versions 0..5, shuffled entries, shared prefixes, long "
-        "names, boundary integers, zero/negative/overflowing times, stages > 3, NUL in names); non-trivial = at least one entry / > 24 bytes")
+        "--skip-worktree/--assume-unchanged/--index-version/--force-untracked-cache/--split-index, add, add -N, write-tree, EOIE/IEOT "
+        "config with index.threads, fsmonitor, sha1+sha256), the same with a null trailer, files built by a python transcription of the "
+        "format (V2/3/4, long names 4093..5000, stages, extended flags, assume-valid, nested cache trees over existing objects, REUC, EOIE "
+        "valid / pointing into another extension / invalid, optional extensions, unordered and duplicate entries, files up to 60 KB) and 16 "
+        "malformed variants; enc: in-memory indexes (versions 0..5, shuffled entries, shared prefixes, long names, boundary integers, "
+        "zero/negative/overflowing times, stages > 3, NUL in names); non-trivial = at least one entry / > 24 bytes")
+
+S_IMPORTS = "From GoGit Require Import Model.IndexFile Spec.GitIndex."
+SHORT = 20000       # observables whose text is longer are compared by length and digest (Model/IndexFile.c12_short)
 
 H = lambda b: b.hex()
 GITENV = dict(os.environ, GIT_CONFIG_GLOBAL="/dev/null", GIT_CONFIG_SYSTEM="/dev/null", GIT_AUTHOR_NAME="v", GIT_AUTHOR_EMAIL="v@v",
@@ -38,6 +58,26 @@ GITENV = dict(os.environ, GIT_CONFIG_GLOBAL="/dev/null", GIT_CONFIG_SYSTEM="/dev
 
 def hfun(hs):
     return hashlib.sha1 if hs == 20 else hashlib.sha256
+
+
+def words(data):
+    """bytes as a Coq list of numerals, 15 bytes each below a leading 1 (Model/IndexFile.bytes_of_words): numerals parse much
+    faster than string literals"""
+    return "(" + coq_list(["0x1" + data[i:i + 15].hex() for i in range(0, len(data), 15)]) + "%N)"
+
+
+def short(text):
+    """python side of Model/IndexFile.c12_short"""
+    if len(text) <= SHORT:
+        return text
+    h = 0
+    for ch in text.encode("latin1"):
+        h = (h * 1000003 + ch + 1) % 4294967291
+    return "( long %d %d )" % (len(text), h)
+
+
+def be32(b, off):
+    return struct.unpack(">I", b[off:off + 4])[0] if off + 4 <= len(b) else 0
 
 
 # ------------------------------------------------------------------ S in python: git's index layout (read-cache.c)
@@ -59,7 +99,7 @@ def key(e):
 def enc_entry(e, ver, hs, last):
     name = e["name"]
     ext = e.get("skip") or e.get("ita")
-    flags = ((e["stage"] & 3) << 12) | min(len(name), 0xfff) | (0x4000 if ext else 0)
+    flags = ((e["stage"] & 3) << 12) | min(len(name), 0xfff) | (0x4000 if ext else 0) | (0x8000 if e.get("valid") else 0)
     b = struct.pack(">10I", e["cs"] & 0xffffffff, e["cn"], e["ms"] & 0xffffffff, e["mn"], e["dev"], e["ino"], e["mode"], e["uid"], e["gid"], e["size"])
     b += e["hash"] + struct.pack(">H", flags)
     if ext:
@@ -95,7 +135,8 @@ def enc_reuc_ext(entries, hs):
 
 
 def build_index(spec, hs):
-    """spec: version, entries (sorted by the caller or not), exts = list of (sig, bytes); trailer = 'ok'|'zero'|'bad'"""
+    """spec: version, entries (sorted by the caller or not), exts = list of (sig, bytes); trailer = 'ok'|'zero'|'bad';
+    eoie = None | 'valid' (git's own contents, appended last) """
     ver = spec["version"]
     es = spec["entries"]
     b = b"DIRC" + struct.pack(">II", ver, spec.get("count", len(es)))
@@ -103,8 +144,14 @@ def build_index(spec, hs):
     for e in es:
         b += enc_entry(e, ver, hs, last)
         last = e["name"]
+    off = len(b)
+    hdrs = b""
     for sig, data in spec.get("exts", []):
+        hdrs += sig + struct.pack(">I", len(data))
         b += sig + struct.pack(">I", len(data)) + data
+    if spec.get("eoie") == "valid":
+        d = struct.pack(">I", off) + hfun(hs)(hdrs).digest()
+        b += b"EOIE" + struct.pack(">I", len(d)) + d
     tr = spec.get("trailer", "ok")
     if tr == "ok":
         b += hfun(hs)(b).digest()
@@ -117,13 +164,17 @@ def build_index(spec, hs):
 
 # ------------------------------------------------------------------ canonical observable text (mirrors harness/cmd/c12)
 
-def obytes(b):
-    if len(b) <= 64:
-        return "x" + H(b)
+def digest(b):
     h = 0
     for c in b:
         h = (h * 1000003 + c + 1) % 4294967291
-    return "( long %d %d )" % (len(b), h)
+    return h
+
+
+def obytes(b):
+    if len(b) <= 64:
+        return "x" + H(b)
+    return "( long %d %d )" % (len(b), digest(b))
 
 
 def render_entry(e):
@@ -134,6 +185,17 @@ def render_entry(e):
 
 def render_entries(es):
     return "( " + "".join(render_entry(e) + " " for e in es) + ")"
+
+
+def render_gentry(e):
+    """Spec/GitIndex.gentry_out of what git ls-files --stage --debug prints"""
+    return "( %s %d %d %d %d %d %d %d %d %d %d %d x%s %d )" % (
+        obytes(e["name"]), e["stage"], e["cs"], e["cn"], e["ms"], e["mn"], e["dev"], e["ino"], e["mode"], e["uid"], e["gid"], e["size"],
+        H(e["hash"]), e["flags"])
+
+
+def render_gentries(es):
+    return "( " + "".join(render_gentry(e) + " " for e in es) + ")"
 
 
 TOK = re.compile(r"\(|\)|[^\s()]+")
@@ -162,33 +224,105 @@ def unparse(x):
     return x
 
 
+# ------------------------------------------------------------------ the hash function of S as a table
+
+def eoie_walks(data, hs):
+    """the ext-header strings read_eoie_extension / write_eoie_extension hash: for an EOIE of git's on-disk size (4 + hash)
+    and of the size the reader insists on (24), walk from the recorded offset"""
+    out = []
+    n = len(data)
+    for esz in {4 + hs, 24}:
+        epos = n - hs - 8 - esz
+        if epos < 12 or data[epos:epos + 4] != b"EOIE":
+            continue
+        src = be32(data, epos + 8)
+        hdr = b""
+        steps = 0
+        while 12 <= src < epos and src + 8 <= n and steps < 64:
+            hdr += data[src:src + 8]
+            src += 8 + be32(data, src + 4)
+            steps += 1
+        out.append(hdr)
+    return out
+
+
+def hash_table(data, hs):
+    items, seen = [], set()
+    for x in [data[:-hs] if len(data) >= hs else b""] + eoie_walks(data, hs):
+        if x not in seen:
+            seen.add(x)
+            items.append('(%s, %s, "%s"%%string)' % (coq_N(len(x)), coq_N(digest(x)), hfun(hs)(x).hexdigest()))
+    return coq_list(items)
+
+
+def has_eoie(data, hs):
+    epos = len(data) - hs - 8 - (4 + hs)
+    return epos >= 12 and data[epos:epos + 4] == b"EOIE" and be32(data, epos + 4) == 4 + hs
+
+
+UNDEF = ("oob", "unspec", "fuel")
+
+
+def s_err(x):
+    """error symbol of an S result, or None"""
+    return x[1] if isinstance(x, list) and len(x) == 2 and x[0] == "err" else None
+
+
 # ------------------------------------------------------------------ git as the reference reader
 
+NPOOL = 6
+
+
+def pool_objects(hs):
+    """blobs that exist in the reader repositories: (oid, loose file content)"""
+    out = []
+    for i in range(NPOOL):
+        raw = b"blob 6\0pool%d\n" % i
+        out.append((hfun(hs)(raw).digest(), zlib.compress(raw)))
+    return out
+
+
+def pool_oids(hs):
+    return [o for o, _ in pool_objects(hs)]
+
+
 class GitReader:
-    """scratch repositories (sha1 / sha256) in which `git ls-files` reads an index file given by GIT_INDEX_FILE"""
+    """scratch repositories (sha1 / sha256) in which git reads an index file given by GIT_INDEX_FILE"""
 
     def __init__(self, tmp):
         self.dirs = {}
         for hs, fmt in ((20, "sha1"), (32, "sha256")):
             d = os.path.join(tmp, "reader-" + fmt)
-            os.makedirs(d, exist_ok=True)
-            subprocess.run(["git", "init", "-q", "--object-format=" + fmt, d], env=GITENV, check=True,
-                           stdout=subprocess.DEVNULL, stderr=subprocess.DEVNULL)
+            if not os.path.isdir(os.path.join(d, ".git")):
+                os.makedirs(d, exist_ok=True)
+                subprocess.run(["git", "init", "-q", "--object-format=" + fmt, d], env=GITENV, check=True,
+                               stdout=subprocess.DEVNULL, stderr=subprocess.DEVNULL)
+                for oid, z in pool_objects(hs):
+                    od = os.path.join(d, ".git", "objects", H(oid)[:2])
+                    os.makedirs(od, exist_ok=True)
+                    open(os.path.join(od, H(oid)[2:]), "wb").write(z)
             self.dirs[hs] = d
         self.n = 0
+        self.err = b""
 
     REC = re.compile(rb"(\d+) ([0-9a-f]+) (\d)\t(.*?)\0  ctime: (\d+):(\d+)\n  mtime: (\d+):(\d+)\n  dev: (\d+)\tino: (\d+)\n"
                      rb"  uid: (\d+)\tgid: (\d+)\n  size: (\d+)\tflags: ([0-9a-f]+)\n", re.S)
 
-    def read(self, data, hs):
-        """-> (entries, resolve_undo) as git reports them, or None when git rejects the file"""
-        d = self.dirs[hs]
+    def put(self, data, hs):
         self.n += 1
-        f = os.path.join(d, "idx%d" % self.n)
+        f = os.path.join(self.dirs[hs], "idx%d" % self.n)
         open(f, "wb").write(data)
-        env = dict(GITENV, GIT_INDEX_FILE=f)
+        return f
+
+    def git(self, hs, f, args):
+        return subprocess.run(["git"] + args, cwd=self.dirs[hs], env=dict(GITENV, GIT_INDEX_FILE=f), stdout=subprocess.PIPE, stderr=subprocess.PIPE, timeout=120)
+
+    def read(self, data, hs, threads=None):
+        """-> (entries, resolve_undo) as git reports them, or None when git rejects the file"""
+        f = self.put(data, hs)
+        pre = ["-c", "index.threads=%d" % threads] if threads else []
         try:
-            p = subprocess.run(["git", "ls-files", "-z", "--stage", "--debug"], cwd=d, env=env, stdout=subprocess.PIPE, stderr=subprocess.PIPE, timeout=60)
+            p = self.git(hs, f, pre + ["ls-files", "-z", "--stage", "--debug"])
             self.err = p.stderr[:300]
             if p.returncode != 0:
                 return None
@@ -202,26 +336,94 @@ class GitReader:
                 fl = int(g[13], 16)
                 es.append({"name": g[3], "stage": int(g[2]), "mode": int(g[0], 8), "hash": bytes.fromhex(g[1].decode()),
                            "cs": int(g[4]), "cn": int(g[5]), "ms": int(g[6]), "mn": int(g[7]), "dev": int(g[8]), "ino": int(g[9]),
-                           "uid": int(g[10]), "gid": int(g[11]), "size": int(g[12]),
+                           "uid": int(g[10]), "gid": int(g[11]), "size": int(g[12]), "flags": fl,
                            "skip": bool(fl & 0x40000000), "ita": bool(fl & 0x20000000)})
                 pos = m.end()
             ru = {}
             if b"REUC" not in data:
                 return es, ru
-            p = subprocess.run(["git", "ls-files", "-z", "--resolve-undo"], cwd=d, env=env, stdout=subprocess.PIPE, stderr=subprocess.PIPE, timeout=60)
+            p = self.git(hs, f, pre + ["ls-files", "-z", "--resolve-undo"])
             if p.returncode != 0:
                 return None
             for rec in p.stdout.split(b"\0")[:-1]:
                 m = re.match(rb"(\d+) ([0-9a-f]+) (\d)\t(.*)$", rec, re.S)
-                ru.setdefault(m.group(4), {})[int(m.group(3))] = bytes.fromhex(m.group(2).decode())
+                ru.setdefault(m.group(4), {})[int(m.group(3))] = (int(m.group(1), 8), bytes.fromhex(m.group(2).decode()))
             return es, ru
         finally:
             os.remove(f)
 
+    def fsck(self, data, hs):
+        """how `git fsck` (verify_index_checksum, verify_ce_order) finds the index: ok | bad_checksum | unordered | multiple_stage | other"""
+        f = self.put(data, hs)
+        try:
+            p = self.git(hs, f, ["fsck", "--no-dangling", "--no-progress"])
+            e = p.stderr
+            if b"bad index file sha1 signature" in e:
+                return "bad_checksum"
+            if b"multiple stage entries for merged file" in e:
+                return "multiple_stage"
+            if b"unordered stage entries" in e:
+                return "unordered"
+            if b"index file corrupt" in e or b"bad signature" in e or b"bad index version" in e or p.returncode < 0:
+                return "other"
+            return "ok"
+        finally:
+            os.remove(f)
 
-def git_time(e):
-    """what Decoder + time.Unix make of on-disk seconds/nanoseconds (nsec >= 1e9 is normalised; git prints raw)"""
-    return e
+    def write_tree(self, data, hs, prefix):
+        """object name git's cache tree holds for a directory (None: not found / error)"""
+        f = self.put(data, hs)
+        try:
+            p = self.git(hs, f, ["write-tree"] + ([b"--prefix=" + prefix + b"/"] if prefix else []))
+            if p.returncode != 0:
+                self.err = p.stderr[:200]
+                return None
+            return p.stdout.strip().decode()
+        finally:
+            os.remove(f)
+
+
+def ru_of_s(r):
+    """resolve-undo of an S result (list of ( path ( m o ) ( m o ) ( m o ) )) -> {obytes path: {stage: (mode, oid)}}"""
+    out = {}
+    if r == "none":
+        return out
+    for ent in r[1]:
+        st = {}
+        for i in (1, 2, 3):
+            if ent[i][0] != "0":
+                st[i] = (int(ent[i][0]), bytes.fromhex(ent[i][1][1:]))
+        if st:
+            out[unparse(ent[0])] = st
+    return out
+
+
+def tree_nodes(s0):
+    """the cache tree of an S result as a list of [path, name, count, subtrees, oid], or None (absent, unparsable, too long)"""
+    t = s0[3]
+    if t == "none" or (t[1] and t[1][0] == "long"):
+        return None
+    return t[1]
+
+
+def compare_s_git(s, g):
+    """S result (parsed `( ok ver entries tree reuc untr fsmn sparse )` or `( err e )`) against GitReader.read's answer.
+    -> None (agree) | 'undef' | reason"""
+    e = s_err(s)
+    if e in UNDEF:
+        return "undef"
+    if g is None:
+        return None if e is not None else "git rejects the file, S reads it"
+    if e is not None:
+        return "git reads the file, S answers %s" % e
+    if s[7] == "true":
+        return "undef"                      # sparse index: ls-files expands the directories
+    ges, gru = g
+    if unparse(s[2]) != short(render_gentries(ges)):
+        return "entries: S %s / git %s" % (unparse(s[2])[:300], render_gentries(ges)[:300])
+    if ru_of_s(s[4]) != {obytes(k): v for k, v in gru.items()}:
+        return "resolve-undo: S %r / git %r" % (ru_of_s(s[4]), gru)
+    return None
 
 
 # ------------------------------------------------------------------ generators
@@ -263,15 +465,15 @@ def rentry(rng, hs, name=None, stage=0):
             "hash": rhash(rng, hs), "skip": rng.random() < 0.15, "ita": rng.random() < 0.1}
 
 
-def rentries(rng, hs, n):
+def rentries(rng, hs, n, maxlong=1):
     """git-valid entry set: unique names; a name is either merged (stage 0) or has a non-empty subset of stages 1..3"""
     es = {}
     shared = rname(rng, False)
     nlong = 0
     for _ in range(n):
         r = rng.random()
-        name = rname(rng, nlong == 0)
-        nlong += len(name) > 4000       # at most one long name per index: keeps the Coq case files small
+        name = rname(rng, nlong < maxlong)
+        nlong += len(name) > 4000       # few long names per index: keeps the Coq case files small
         if r < 0.3:                       # names sharing long prefixes (V4 compression) and sibling prefixes
             name = shared + rng.choice([b"", b"/", b"a", b"/a", b"b/c", b".x"]) + bytes([rng.choice(ALPH)])
         if any(k[0] == name for k in es):
@@ -284,22 +486,53 @@ def rentries(rng, hs, n):
     return [es[k] for k in sorted(es)]
 
 
+def rcomp(rng):
+    return bytes(rng.choice(ALPH) for _ in range(rng.randrange(1, 5))) + rng.choice([b"", b"", b"\x80", b"\n"])
+
+
+def subtree_key(n):
+    return (len(n), n)
+
+
+def rctree(rng, hs, depth=0, valid_only=False):
+    """a cache tree as git writes it (write_one): nested, children sorted by subtree_name_cmp, object names of existing objects"""
+    kids = {}
+    if depth < 3:
+        for _ in range(pick_weighted(rng, [(4, 0), (3, 1), (2, 2), (1, 4)]) if depth else rng.randrange(0, 4)):
+            kids[rcomp(rng)] = rctree(rng, hs, depth + 1, valid_only)
+    cnt = rng.choice([0, 1, 2, 7, 300, 2**31 - 1]) if valid_only or rng.random() < 0.8 else rng.choice([-1, -1, -5])
+    return {"entries": cnt, "hash": rng.choice(pool_oids(hs)), "kids": [(n, kids[n]) for n in sorted(kids, key=subtree_key)]}
+
+
+def enc_ctree(t, name=b""):
+    out = name + b"\0" + str(t["entries"]).encode() + b" " + str(len(t["kids"])).encode() + b"\n"
+    if t["entries"] >= 0:
+        out += t["hash"]
+    for n, k in t["kids"]:
+        out += enc_ctree(k, n)
+    return out
+
+
 def rexts(rng, hs):
     exts = []
     for _ in range(pick_weighted(rng, [(3, 0), (3, 1), (2, 2), (1, 3)])):
-        k = pick_weighted(rng, [(3, "TREE"), (3, "REUC"), (2, "EOIE"), (2, "opt"), (1, "empty")])
-        if k == "TREE":
+        k = pick_weighted(rng, [(2, "TREE"), (3, "CTREE"), (3, "REUC"), (2, "EOIE"), (2, "opt"), (1, "empty")])
+        if k == "TREE":       # flat lists: go-git reads them, git's recursive reader mostly gives up (cache tree dropped)
             ts = []
             for i in range(rng.randrange(0, 4)):
                 cnt = rng.choice([-1, 0, 1, 5, 12345])
                 ts.append({"path": b"" if i == 0 else rname(rng, False).split(b"/")[0], "entries": cnt, "trees": rng.randrange(0, 3), "hash": rhash(rng, hs)})
             exts.append((b"TREE", enc_tree_ext(ts, hs)))
+        elif k == "CTREE":
+            exts.append((b"TREE", enc_ctree(rctree(rng, hs, 0, rng.random() < 0.7))))
         elif k == "REUC":
-            rs = []
+            rs = {}
             for _ in range(rng.randrange(0, 3)):
                 modes = {s: rng.choice([0, 0o100644, 0o100644, 0o100755, 0o120000]) for s in (1, 2, 3)}
-                rs.append({"path": rname(rng, False), "modes": modes, "hashes": {s: rhash(rng, hs) for s in (1, 2, 3)}})
-            exts.append((b"REUC", enc_reuc_ext(rs, hs)))
+                p = rname(rng, False)
+                rs[p] = {"path": p, "modes": modes, "hashes": {s: rhash(rng, hs) for s in (1, 2, 3)}}
+            order = sorted(rs) if rng.random() < 0.8 else list(rs)
+            exts.append((b"REUC", enc_reuc_ext([rs[p] for p in order], hs)))
         elif k == "EOIE":
             exts.append((b"EOIE", struct.pack(">I", rng.randrange(0, 2**32)) + rhash(rng, hs)))
         elif k == "opt":
@@ -313,24 +546,75 @@ def sums_for(data, hs):
     return [hfun(hs)(data[:max(0, len(data) - hs - k)]).hexdigest() if len(data) - hs - k >= 0 else "" for k in range(8)]
 
 
-def dec_case(bucket, data, hs, skiphash=False, valid=False, note=""):
-    return {"bucket": bucket, "kind": "dec", "data": H(data), "hs": hs, "skiphash": skiphash, "repeat": 3,
-            "sums": sums_for(data, hs), "valid": valid, "note": note}
+def dec_case(bucket, data, hs, skiphash=False, valid=False, note="", **kw):
+    c = {"bucket": bucket, "kind": "dec", "data": H(data), "hs": hs, "skiphash": skiphash, "repeat": 3,
+         "sums": sums_for(data, hs), "valid": valid, "note": note}
+    c.update(kw)
+    return c
 
 
-def synth_cases(rng, n):
+def eoie_cases(rng, n):
+    """EOIE as read_eoie_extension sees it (SHA-1; the reader only accepts the 24-byte form): git's own contents, an offset that
+    points at an extension nested in the data of an optional one (git -c index.threads=2 then loads the extensions from there),
+    and invalid ones (hash, size, offset before the header / at the EOIE / not on an extension boundary)"""
+    cases = []
+    hs = 20
+    for _ in range(n):
+        ver = rng.choice([2, 3, 4])
+        es = [e for e in rentries(rng, hs, rng.randrange(1, 5)) if len(e["name"]) < 300]
+        body = build_index({"version": ver, "entries": es, "trailer": "ok"}, hs)[:-hs]
+        eoff = len(body)
+        p = rname(rng, False)
+        ru = enc_reuc_ext([{"path": p, "modes": {1: 0o100644, 2: 0, 3: rng.choice([0, 0o100755])}, "hashes": {1: rhash(rng, hs), 3: rhash(rng, hs)}}], hs)
+        inner = b"REUC" + struct.pack(">I", len(ru)) + ru
+        outer = rng.choice([b"ZZZZ", b"UNTR", b"Abcd"])
+        k = pick_weighted(rng, [(3, "own"), (3, "inner"), (1, "badhash"), (1, "badsize"), (1, "off-low"), (1, "off-eoie"), (1, "off-mid"), (1, "noext")])
+        exts = b"" if k == "noext" else outer + struct.pack(">I", len(inner)) + inner
+        ohdr = exts[:8]
+        off, hdrs, sz = eoff, ohdr, 24
+        if k == "inner":
+            off, hdrs = eoff + 8, inner[:8]
+        elif k == "off-low":
+            off = rng.choice([0, 8, 11])
+        elif k == "off-eoie":
+            off = eoff + len(exts) + rng.choice([0, 4])
+        elif k == "off-mid":
+            off = eoff + rng.choice([1, 4, 9])
+        hh = hfun(hs)(hdrs).digest()
+        if k == "badhash":
+            hh = bytes([hh[0] ^ 1]) + hh[1:]
+        if k == "badsize":
+            sz = rng.choice([20, 28, 36])
+        eo = (struct.pack(">I", off) + hh + b"\0" * 16)[:sz]
+        b = body + exts + b"EOIE" + struct.pack(">I", sz) + eo
+        b += hfun(hs)(b).digest()
+        # the file is valid for git in every variant (an EOIE it does not like is ignored); go-git insists on 4 + hash bytes
+        cases.append(dec_case("synth-eoie-" + k, b, hs, valid=(sz >= 24), threads=True))
+    return cases
+
+
+def synth_cases(rng, n, big=0):
     """index files built by the python transcription of git's layout: valid ones (git must read them) and malformed ones"""
     cases = []
-    for _ in range(n):
+    for i in range(n):
         hs = 32 if rng.random() < 0.2 else 20
         ver = rng.choice([2, 3, 4])
-        es = rentries(rng, hs, pick_weighted(rng, [(1, 0), (3, 1), (4, 3), (3, 6), (1, 12)]))
+        if i < big:       # beyond bufio's 4096-byte buffer and beyond the 12 KB of one hex literal: several long names, many entries
+            es = rentries(rng, hs, rng.choice([20, 60, 150]), maxlong=rng.choice([2, 4, 8]))
+        else:
+            es = rentries(rng, hs, pick_weighted(rng, [(1, 0), (3, 1), (4, 3), (3, 6), (1, 12)]))
+        for e in es:
+            e["valid"] = rng.random() < 0.1
         spec = {"version": ver, "entries": es, "exts": rexts(rng, hs), "trailer": pick_weighted(rng, [(6, "ok"), (2, "zero")])}
+        if rng.random() < 0.3:
+            spec["exts"] = [x for x in spec["exts"] if x[0] != b"EOIE"]
+            spec["eoie"] = "valid"
         data = build_index(spec, hs)
-        cases.append(dec_case("synth-valid", data, hs, skiphash=rng.random() < 0.2, valid=True))
+        cases.append(dec_case("synth-big" if i < big else "synth-valid", data, hs, skiphash=rng.random() < 0.2, valid=True))
         # malformed / boundary variants of the same file
         k = pick_weighted(rng, [(3, "trunc"), (2, "flip"), (1, "badsum"), (1, "sig"), (1, "ver"), (1, "count"), (1, "mand"), (1, "strip"),
-                                (1, "trail"), (1, "eoie"), (1, "treebad"), (1, "reucbad"), (1, "nsec"), (1, "varint")])
+                                (1, "trail"), (1, "eoie"), (1, "treebad"), (1, "reucbad"), (1, "nsec"), (1, "varint"), (2, "order"), (1, "xflags")])
+        valid = False
         if k == "trunc":
             cut = rng.randrange(0, len(data))
             if rng.random() < 0.5:
@@ -348,7 +632,7 @@ def synth_cases(rng, n):
         elif k == "count":
             m = data[:8] + struct.pack(">I", rng.choice([len(es) + 1, 2**32 - 1, max(0, len(es) - 1)])) + data[12:]
         elif k == "mand":
-            m = build_index(dict(spec, exts=spec["exts"] + [(rng.choice([b"link", b"sdir", b"zzzz", b"[abc"]), b"xy")]), hs)
+            m = build_index(dict(spec, exts=spec["exts"] + [(rng.choice([b"link", b"sdir", b"zzzz", b"[abc"]), rng.choice([b"xy", b"", b"q" * 40]))]), hs)
         elif k == "strip":
             # V4 file with a strip length larger than the previous name / non-zero on the first entry
             e0 = rentry(rng, hs, b"ab", 0)
@@ -360,34 +644,85 @@ def synth_cases(rng, n):
         elif k == "trail":
             m = data + bytes(rng.randrange(256) for _ in range(rng.randrange(1, 9)))
         elif k == "eoie":   # whole file below bufio's 4096-byte buffer (see Model/IndexFile.v read_extensions)
-            m = build_index(dict(spec, entries=[e for e in es if len(e["name"]) < 200][:6], exts=[(b"EOIE", bytes(rng.randrange(256) for _ in range(rng.choice([0, 3, 4 + hs - 1, 4 + hs + 1, 4 + hs + 9]))))]), hs)
+            m = build_index(dict(spec, eoie=None, entries=[e for e in es if len(e["name"]) < 200][:6], exts=[(b"EOIE", bytes(rng.randrange(256) for _ in range(rng.choice([0, 3, 4 + hs - 1, 4 + hs + 1, 4 + hs + 9]))))]), hs)
         elif k == "treebad":
             bad = rng.choice([b"\0x 1\n", b"\0" + b"1 x\n", b"\0" + b"99999999999999999999 1\n", b"\0" + b"3 0\n" + b"h" * (hs - 1), b"\0" + b"3 0\n", b"p\0" + b"+2 -0\n" + b"h" * hs,
-                              b"nonul", b"\0 1 0\n", b"\0" + b"1 0", b"\0-1 0\n\0" + b"2 1\n" + b"k" * hs])
-            m = build_index(dict(spec, exts=[(b"TREE", bad)]), hs)
+                              b"nonul", b"\0 1 0\n", b"\0" + b"1 0", b"\0-1 0\n\0" + b"2 1\n" + b"k" * hs, b"\0" + b"1 1\n" + b"h" * hs + b"b\0" + b"1 0\n" + b"k" * hs + b"junk",
+                              b"\0" + b"2 2\n" + b"h" * hs + b"b\0" + b"1 0\n" + b"k" * hs + b"a\0" + b"1 0\n" + b"k" * hs, b"\0" + b"1 2\n" + b"h" * hs + b"a\0" + b"1 0\n" + b"k" * hs])
+            m = build_index(dict(spec, eoie=None, exts=[(b"TREE", bad)]), hs)
         elif k == "reucbad":
             bad = rng.choice([b"p\0" + b"100644\0" + b"0\0" + b"8\0", b"p\0" + b"100644\0" + b"0\0" + b"0\0" + b"h" * (hs - 2), b"p\0" + b"1\0",
                               b"p\0" + b"-1\0" + b"+7\0" + b"0\0" + b"h" * hs + b"i" * hs, b"p\0" + b"\0" + b"0\0" + b"0\0", b"p\0" + b"0\0" + b"0\0" + b"0\0" + b"q\0",
-                              b"p\0" + b"1\0" + b"1\0" + b"1\0" + b"h" * hs + b"i" * hs])
-            m = build_index(dict(spec, exts=[(b"REUC", bad)]), hs)
+                              b"p\0" + b"1\0" + b"1\0" + b"1\0" + b"h" * hs + b"i" * hs, b"p\0" + b"0\0" + b"0\0" + b"0\0",
+                              b"q\0" + b"1\0" + b"0\0" + b"0\0" + b"h" * hs + b"p\0" + b"0\0" + b"2\0" + b"0\0" + b"i" * hs,
+                              b"p\0" + b"1\0" + b"0\0" + b"0\0" + b"h" * hs + b"p\0" + b"0\0" + b"2\0" + b"0\0" + b"i" * hs])
+            m = build_index(dict(spec, eoie=None, exts=[(b"REUC", bad)]), hs)
         elif k == "nsec":
             e0 = dict(rentry(rng, hs, b"n", 0), cn=rng.choice([10**9, 2**32 - 1, 1999999999]), cs=rng.choice([0, 5, 2**32 - 1]))
             m = build_index({"version": 2, "entries": [e0]}, hs)
+            valid = True
+        elif k == "order":   # git reads such a file (only fsck minds the order); go-git reads it too
+            es2 = [dict(e) for e in es if len(e["name"]) < 300][:5] or [rentry(rng, hs, b"o", 0)]
+            r = rng.random()
+            if r < 0.4:
+                es2 = es2 + [dict(rng.choice(es2), stage=rng.choice([0, 0, 1, 2, 3]))]
+            elif r < 0.7:
+                rng.shuffle(es2)
+            else:
+                es2 = es2 + [rentry(rng, hs, es2[-1]["name"][:-1], 0)]
+            m = build_index({"version": ver, "entries": es2}, hs)
+            valid = True
+        elif k == "xflags":  # extended-flag bits git does not understand: git dies, go-git ignores them
+            e0 = dict(rentry(rng, hs, b"x", 0), skip=True)
+            raw = bytearray(build_index({"version": rng.choice([2, 3, 4]), "entries": [e0]}, hs)[:-hs])
+            pos = 12 + 40 + hs + 2
+            bit = rng.choice([0x8000, 0x1000, 0x0001, 0x0100])
+            raw[pos] |= bit >> 8
+            raw[pos + 1] |= bit & 0xff
+            m = bytes(raw) + hfun(hs)(bytes(raw)).digest()
         else:
             e0 = rentry(rng, hs, b"v", 0)
             fixed = enc_entry(e0, 2, hs, b"")[:40 + hs + 2 + (2 if (e0["skip"] or e0["ita"]) else 0)]
             vi = rng.choice([b"\xff" * 9 + b"\x7f", b"\x80", b"\xff\xff", b"\x80\x00", b"\x81\x00"])
             body = b"DIRC" + struct.pack(">II", 4, 1) + fixed + vi + b"v\0"
             m = body + hfun(hs)(body).digest()
-        cases.append(dec_case("synth-" + k, m, hs, skiphash=rng.random() < 0.2))
+        cases.append(dec_case("synth-" + k, m, hs, skiphash=rng.random() < 0.2, valid=valid))
     return cases
 
 
-def run(cmd, cwd, inp=None, ok=False):
-    p = subprocess.run(cmd, cwd=cwd, env=GITENV, input=inp, stdout=subprocess.PIPE, stderr=subprocess.PIPE, timeout=120)
+def run(cmd, cwd, inp=None, ok=False, env=None):
+    p = subprocess.run(cmd, cwd=cwd, env=env or GITENV, input=inp, stdout=subprocess.PIPE, stderr=subprocess.PIPE, timeout=120)
     if ok and p.returncode != 0:
         raise RuntimeError("%r failed: %s" % (cmd, p.stderr[:300]))
     return p
+
+
+def tree_truth(d, idxf):
+    """what the directories of the index hold, computed by git from a copy of the index file: {dir: [tree oid, number of
+    entries below, number of immediate sub-directories]} (tree oids only when write-tree succeeds)"""
+    cp = idxf + ".copy"
+    shutil.copyfile(idxf, cp)
+    env = dict(GITENV, GIT_INDEX_FILE=cp)
+    try:
+        names = [r.split(b"\t", 1)[1] for r in run(["git", "ls-files", "-z", "-s"], d, env=env).stdout.split(b"\0")[:-1]]
+        dirs = {b"": [None, len(names), set()]}
+        for nm in names:
+            parts = nm.split(b"/")
+            for i in range(1, len(parts)):
+                p = b"/".join(parts[:i])
+                dirs.setdefault(p, [None, 0, set()])[1] += 1
+                dirs.setdefault(b"/".join(parts[:i - 1]), [None, 0, set()])[2].add(parts[i - 1])
+        p = run(["git", "write-tree"], d, env=env)
+        if p.returncode == 0:
+            root = p.stdout.strip().decode()
+            dirs[b""][0] = root
+            for rec in run(["git", "ls-tree", "-r", "-t", "-z", root], d, env=env).stdout.split(b"\0")[:-1]:
+                meta, path = rec.split(b"\t", 1)
+                if meta.split()[1] == b"tree" and path in dirs:
+                    dirs[path][0] = meta.split()[2].decode()
+        return {obytes(k): [v[0], v[1], len(v[2])] for k, v in dirs.items()}
+    finally:
+        os.remove(cp)
 
 
 def git_cases(rng, nrepos):
@@ -404,14 +739,19 @@ def git_cases(rng, nrepos):
                 run(["git", "config", "index.recordEndOfIndexEntries", "true"], d)
             if rng.random() < 0.3:
                 run(["git", "config", "index.recordOffsetTable", "true"], d)
+                if rng.random() < 0.7:
+                    run(["git", "config", "index.threads", "2"], d)       # IEOT is only written with more than one thread
+            if rng.random() < 0.15:
+                run(["git", "config", "core.fsmonitor", "/bin/true"], d)
             blobs = [run(["git", "hash-object", "-w", "--stdin"], d, inp=b"blob%d\n" % i, ok=True).stdout.strip().decode() for i in range(3)]
             names = []
             conflicted = []
             seen = set()
+            split = False
             idxf = os.path.join(d, ".git", "index")
             for step in range(rng.randrange(3, 10)):
-                k = pick_weighted(rng, [(4, "info"), (3, "conflict"), (4 if conflicted else 0, "resolve"), (1, "forcerm"), (2, "skip"), (2, "ita"), (2, "real"),
-                                        (2, "writetree"), (2, "version"), (1, "untracked")])
+                k = pick_weighted(rng, [(4, "info"), (3, "conflict"), (4 if conflicted else 0, "resolve"), (1, "forcerm"), (2, "skip"), (1, "assume"), (2, "ita"), (2, "real"),
+                                        (2, "writetree"), (2, "version"), (1, "untracked"), (1, "fsmonitor"), (0.4, "split")])
                 if k == "info":
                     lines = b""
                     for _ in range(rng.randrange(1, 5)):
@@ -441,6 +781,8 @@ def git_cases(rng, nrepos):
                     run(["git", "update-index", "--force-remove", "--", nm], d)
                 elif k == "skip" and names:
                     run(["git", "update-index", rng.choice(["--skip-worktree", "--skip-worktree", "--no-skip-worktree"]), "--", rng.choice(names)], d)
+                elif k == "assume" and names:
+                    run(["git", "update-index", rng.choice(["--assume-unchanged", "--assume-unchanged", "--no-assume-unchanged"]), "--", rng.choice(names)], d)
                 elif k == "ita":
                     nm = b"ita%d" % step
                     open(os.path.join(d.encode(), nm), "wb").write(b"x" * step)
@@ -457,11 +799,21 @@ def git_cases(rng, nrepos):
                     run(["git", "update-index", "--index-version", str(rng.choice([2, 3, 4]))], d)
                 elif k == "untracked":
                     run(["git", "update-index", "--force-untracked-cache"], d)
+                elif k == "fsmonitor":
+                    run(["git", "update-index", "--fsmonitor"], d)
+                elif k == "split":
+                    run(["git", "update-index", "--split-index"], d)
+                    split = True
                 if os.path.exists(idxf):
                     data = open(idxf, "rb").read()
                     if data not in seen:
                         seen.add(data)
-                        cases.append(dec_case("git-written", data, hs, valid=True, note="step %d %s" % (step, k)))
+                        if split or b"link" in data:
+                            # a split index: git merges it with .git/sharedindex.*; go-git refuses the mandatory `link` extension
+                            cases.append(dec_case("git-split", data, hs, valid=False, note="step %d %s" % (step, k)))
+                            continue
+                        cases.append(dec_case("git-written", data, hs, valid=True, note="step %d %s" % (step, k),
+                                              tree_truth=tree_truth(d, idxf), reencode=True))
                         if rng.random() < 0.25:   # what git >= 2.40 writes with index.skipHash: a null trailer
                             cases.append(dec_case("git-skiphash", data[:-hs] + b"\0" * hs, hs, valid=True))
     finally:
@@ -480,34 +832,60 @@ def coq_entry(e):
         coq_bool(e["skip"]), coq_bool(e["ita"]))
 
 
+def eval_s(ctx, items, tag="s"):
+    """S = Spec/GitIndex.v on byte strings.  items: [(key, data, hs)] -> {key: [normal read, fsck status, read with
+    index.threads=2, read_eoie_extension, re-encoding] (parsed) or None}.  The bytes of a case are a Coq definition shared by its
+    five evaluations; one coqc per 12 cases, in parallel"""
+    groups = [items[i:i + 12] for i in range(0, len(items), 12)]
+
+    def run(gi):
+        defs, exprs = [S_IMPORTS], []
+        for k, (_, d, hs) in enumerate(groups[gi]):
+            defs.append("Definition d%d : bytes := Eval vm_compute in (bytes_of_words %s)." % (k, words(d)))
+            defs.append("Definition t%d : list (N * N * string) := %s." % (k, hash_table(d, hs)))
+            a = "%s t%d" % (coq_N(hs), k)
+            exprs += ["c12_git_normal %s d%d" % (a, k), "c12_git_fsck %s d%d" % (a, k), "c12_git_threads %s d%d" % (a, k),
+                      "c12_git_eoie %s d%d" % (a, k), "c12_git_reenc %s %s d%d" % (a, coq_bool(has_eoie(d, hs)), k)]
+        return core.coq_eval("%s%s%d" % (ctx.pid, tag, gi), "\n".join(defs), exprs, chunk=len(exprs))
+
+    res = {}
+    with ThreadPoolExecutor(max_workers=8) as ex:
+        for g, outs in zip(groups, ex.map(run, range(len(groups)))):
+            for k, (key_, _, _) in enumerate(g):
+                o = outs[5 * k:5 * k + 5]
+                res[key_] = [parse_out(x) for x in o] if all(x is not None for x in o) else None
+    return res
+
+
 class Dec(Suite):
     name = "dec"
     go_cmd = "c12"
     coq_imports = "From GoGit Require Import Model.IndexFile."
     quick_n = 100
     thorough_n = 600
-    coq_chunk = 25
+    coq_chunk = 20
 
     def gen(self, rng, n, tier):
         cases = git_cases(rng, max(4, n // 20))
-        cases += synth_cases(rng, n // 3)
+        cases += synth_cases(rng, n // 3, big=max(2, n // 50))
+        cases += eoie_cases(rng, max(6, n // 8))
         return cases
 
     def model_expr(self, c):
-        if len(c["data"]) > 24000:      # > 12 KB: coqc overflows its stack on such literals; direct oracle only
-            return None
-        return 'c12_dec %s %s %s "%s"' % (coq_N(c["hs"]), coq_bool(c["skiphash"]), coq_list(['"%s"' % s for s in c["sums"]]), c["data"])
+        return 'c12_decw %s %s %s %s' % (coq_N(c["hs"]), coq_bool(c["skiphash"]), coq_list(['"%s"' % s for s in c["sums"]]), words(bytes.fromhex(c["data"])))
 
     def nontrivial(self, c):
         return len(c["data"]) > 24
 
     def oracle(self, ctx, cases, impl, model):
         """go-git must decode what git accepts into what git reports (entries by ls-files --stage --debug,
-        resolve-undo by ls-files --resolve-undo), the same on every run; TREE / EOIE are compared with the
-        python transcription of the format (git has no plumbing that prints them)"""
+        resolve-undo by ls-files --resolve-undo), the same on every run; the cache tree and the EOIE contents must be
+        what S = Spec/GitIndex.v (validated against the git binary by cgit() below) makes of the same bytes"""
         fails = {}
         gr = GitReader(ctx.tmp)
-        stats = {"git_accepts": 0, "git_rejects": 0}
+        stats = {"git_accepts": 0, "git_rejects": 0, "tree_vs_S": 0, "eoie_vs_S": 0}
+        self.S = eval_s(ctx, [(c["id"], bytes.fromhex(c["data"]), c["hs"]) for c in cases])
+        self.G = {}
         for c in cases:
             r = impl.get(c["id"])
             if r is None:
@@ -516,20 +894,22 @@ class Dec(Suite):
             if (r.get("extra") or {}).get("distinct", 1) != 1:
                 fails[c["id"]] = "decoding the same bytes gave %d different results" % r["extra"]["distinct"]
                 continue
+            data = bytes.fromhex(c["data"])
+            g = self.G[c["id"]] = (gr.read(data, c["hs"]), gr.err)
             if not c.get("valid"):
                 continue
-            data = bytes.fromhex(c["data"])
-            g = gr.read(data, c["hs"])
+            g = g[0]
             if g is None:
                 stats["git_rejects"] += 1
                 ctx.notes.append("generator fault: git rejects a %s case (%s): %r" % (c["bucket"], c.get("note", ""), gr.err))
                 continue
             stats["git_accepts"] += 1
             ges, gru = g
-            if not r["out"].startswith("( ok"):
+            full = (r.get("extra") or {}).get("full") or r["out"]
+            if not full.startswith("( ok"):
                 fails[c["id"]] = "git reads this index (%d entries), go-git fails with %s" % (len(ges), r["out"])
                 continue
-            o = parse_out(r["out"])
+            o = parse_out(full)
             want = []
             for e in ges:
                 e = dict(e)
@@ -544,8 +924,25 @@ class Dec(Suite):
                 for ent in o[4][1]:
                     got_ru.setdefault(bytes.fromhex(ent[0][1:]), {}).update({int(s[0]): bytes.fromhex(s[1][1:]) for s in ent[1]})
             got_ru = {k: v for k, v in got_ru.items() if v}     # an entry whose three modes are 0 has nothing to print
-            if got_ru != gru:
+            if got_ru != {k: {s: mo[1] for s, mo in v.items()} for k, v in gru.items()}:
                 fails[c["id"]] = "resolve-undo differs from git ls-files --resolve-undo: go-git %r / git %r" % (got_ru, gru)
+                continue
+            # cache tree and EOIE: what git makes of them according to S
+            s = self.S.get(c["id"])
+            if not s or s_err(s[0]) is not None:
+                continue
+            if tree_nodes(s[0]) is not None:   # git parses the TREE extension: go-git's flat list = the valid nodes in pre-order
+                want_t = [[n[1], n[2], n[3], n[4]] for n in tree_nodes(s[0]) if not n[2].startswith("-")]
+                got_t = o[3][1] if o[3] != "none" else None
+                stats["tree_vs_S"] += 1
+                if got_t != want_t:
+                    fails[c["id"]] = "cache tree differs from what git reads (Spec/GitIndex): go-git %s / git %s" % (unparse(o[3])[:300], unparse(want_t)[:300])
+                    continue
+            if has_eoie(data, c["hs"]) and isinstance(s[4], list) and unparse(s[4][0]) == obytes(data):
+                # the file is exactly what git writes for the state it holds: EOIE = (offset of the first extension, hash of the headers)
+                stats["eoie_vs_S"] += 1
+                if o[5] == "none" or o[5][1] != [s[4][1], s[4][2]]:
+                    fails[c["id"]] = "EOIE differs from what git writes (Spec/GitIndex): go-git %s / git %s" % (unparse(o[5]), unparse(s[4][1:]))
         self.stats = stats
         return fails
 
@@ -554,12 +951,98 @@ class Dec(Suite):
             return "reuc-map-order"
         return None
 
+    def cgit(self, ctx, cases):
+        """C-git: S = Spec/GitIndex.v against the git binary"""
+        gr = GitReader(ctx.tmp)
+        st = {"s_vs_git_read": 0, "s_undefined": 0, "s_vs_git_fsck": 0, "s_vs_git_threads": 0, "s_vs_git_write_tree": 0,
+              "s_vs_git_tree_truth": 0, "s_reencode_exact": 0, "s_eoie_accepted": 0}
+        bad = 0
+
+        def mism(c, what):
+            nonlocal bad
+            bad += 1
+            ctx.notes.append("spec_mismatch S vs git on %s case %s (%s): %s" % (c["bucket"], c["id"], c.get("note", ""), what))
+        nf = nt = 0
+        for c in cases:
+            s = self.S.get(c["id"])
+            if c["id"] not in self.G:
+                continue
+            if not s:
+                mism(c, "S did not evaluate")
+                continue
+            data = bytes.fromhex(c["data"])
+            hs = c["hs"]
+            g = self.G[c["id"]][0]
+            # 1. the normal read
+            why = compare_s_git(s[0], g)
+            if why == "undef":
+                st["s_undefined"] += 1
+                if c.get("valid"):
+                    mism(c, "S is undefined (%s) on a file of a valid bucket" % unparse(s[0]))
+                continue
+            st["s_vs_git_read"] += 1
+            if why:
+                mism(c, why + " (git: %r)" % self.G[c["id"]][1][:120])
+                continue
+            if g is None:
+                continue
+            # 2. fsck: checksum and order
+            if nf < 40 or c["bucket"] in ("synth-order", "synth-badsum", "git-skiphash"):
+                nf += 1
+                want = "ok" if s[1] == "ok" else s_err(s[1])
+                got = gr.fsck(data, hs)
+                st["s_vs_git_fsck"] += 1
+                if want not in UNDEF and got != want:
+                    mism(c, "fsck: S %s / git %s" % (want, got))
+            # 3. index.threads=2: extensions loaded from the EOIE offset
+            if c.get("threads") or (nt < 25 and b"EOIE" in data):
+                nt += 1
+                gt = gr.read(data, hs, threads=2)
+                why = compare_s_git(s[2], gt)
+                if why != "undef":
+                    st["s_vs_git_threads"] += 1
+                    if why:
+                        mism(c, "index.threads=2: " + why)
+                if s[3] != "0":
+                    st["s_eoie_accepted"] += 1
+            # 4. the cache tree
+            nodes = tree_nodes(s[0])
+            if nodes is not None:
+                if "tree_truth" in c:
+                    tt = c["tree_truth"]
+                    st["s_vs_git_tree_truth"] += 1
+                    for n in nodes:
+                        if n[2].startswith("-"):
+                            continue
+                        t = tt.get(unparse(n[0]))
+                        if t is None or [n[2], n[3]] != [str(t[1]), str(t[2])] or (t[0] is not None and n[4] != "x" + t[0]):
+                            mism(c, "cache tree node %s: S %s / git ls-tree + ls-files %s" % (unparse(n[0]), n[2:], t))
+                            break
+                elif all(not n[2].startswith("-") and bytes.fromhex(n[4][1:]) in pool_oids(hs) for n in nodes) and \
+                        all(isinstance(n[0], str) for n in nodes):
+                    st["s_vs_git_write_tree"] += 1
+                    for n in [nodes[0], nodes[-1], nodes[len(nodes) // 2]]:
+                        got = gr.write_tree(data, hs, bytes.fromhex(n[0][1:]))
+                        if got != n[4][1:]:
+                            mism(c, "write-tree --prefix=%s: S %s / git %s (%r)" % (n[0], n[4], got, gr.err))
+                            break
+                    if gr.write_tree(data, hs, b"no/such/dir") is not None:
+                        mism(c, "write-tree finds a directory S does not have")
+            # 5. what git writes back
+            if c.get("reencode") and not (b"IEOT" in data and be32(data, 4) == 4):
+                st["s_reencode_exact"] += 1
+                if not (isinstance(s[4], list) and unparse(s[4][0]) == obytes(data)):
+                    mism(c, "git_encode (git_decode b) <> b: %s / %s" % (unparse(s[4])[:200], obytes(data)))
+        st["spec_mismatches"] = bad + getattr(self, "stats", {}).get("git_rejects", 0)
+        return st
+
     def extra(self, ctx, cases, impl, model):
         b = {}
         for c in cases:
             cls = (impl.get(c["id"]) or {}).get("out", "")[:12]
             b[cls] = b.get(cls, 0) + 1
-        return dict(getattr(self, "stats", {}), result_classes=b, spec_mismatches=getattr(self, "stats", {}).get("git_rejects", 0))
+        big = sum(1 for c in cases if len(c["data"]) > 24000)
+        return dict(getattr(self, "stats", {}), result_classes=b, files_over_12k=big, **self.cgit(ctx, cases))
 
 
 def enc_cases(rng, n):
@@ -618,10 +1101,11 @@ class Enc(Suite):
 
     def oracle(self, ctx, cases, impl, model):
         """on go-git's own output: (1) decoding gives back the sorted entries, (2) the trailer is the checksum of the
-        body, (3) git reads the file and reports the same entries"""
+        body, (3) git reads the file and reports the same entries, (4) git fsck finds checksum and entry order in order"""
         fails = {}
         gr = GitReader(ctx.tmp)
-        ngit = 0
+        ngit = nfsck = 0
+        self.files = {}
         for c in cases:
             r = impl.get(c["id"])
             if r is None:
@@ -642,18 +1126,37 @@ class Enc(Suite):
                 fails[c["id"]] = "decode(encode(i)) differs from sort(i): %s / %s" % (unparse(back)[:400], render_entries(want)[:400])
                 continue
             f = (r.get("extra") or {}).get("file")
-            g = gr.read(bytes.fromhex(f[1:]), c["hs"])
+            data = bytes.fromhex(f[1:])
+            g = gr.read(data, c["hs"])
             ngit += 1
             if g is None:
                 fails[c["id"]] = "git cannot read the index go-git wrote (version %d, %d entries): %r" % (c["version"], len(want), gr.err)
                 continue
+            self.files[c["id"]] = (data, g, c["hs"])
             if render_entries(g[0]) != render_entries(want):
                 fails[c["id"]] = "git reads other entries than were encoded: git %s / encoded %s" % (render_entries(g[0])[:400], render_entries(want)[:400])
-        self.ngit = ngit
+                continue
+            if nfsck < 25:
+                nfsck += 1
+                k = gr.fsck(data, c["hs"])
+                if k != "ok" and not c["skiphash"]:
+                    fails[c["id"]] = "git fsck rejects the index go-git wrote: " + k
+        self.ngit, self.nfsck = ngit, nfsck
         return fails
 
     def extra(self, ctx, cases, impl, model):
-        return {"git_read_back": getattr(self, "ngit", 0)}
+        """C-git on the files go-git wrote: S reads them as the binary does"""
+        items = [(i, d, hs) for i, (d, g, hs) in sorted(self.files.items())]
+        S = eval_s(ctx, items)
+        bad = n = 0
+        for i, (d, g, hs) in self.files.items():
+            s = S.get(i)
+            why = "S did not evaluate" if not s else compare_s_git(s[0], g)
+            n += 1
+            if why:
+                bad += 1
+                ctx.notes.append("spec_mismatch S vs git on the file go-git wrote for enc case %s: %s" % (i, why))
+        return {"git_read_back": getattr(self, "ngit", 0), "git_fsck": getattr(self, "nfsck", 0), "s_vs_git_read": n, "spec_mismatches": bad}
 
 
 SUITES = [Dec(), Enc()]
